@@ -7,6 +7,11 @@
   `mutateAddLinkP` / `mutateAddNodeP` / `mutateConnectSensorsP`, the species goroutine `reproduceSpeciesP`, `pstep` /
   `runSched` (any scheduler list), `parEpoch` (prepare · goroutines under a schedule · arrival in any order · speciate ·
   finalize).
+  Tie to the Go code: (1) `nonatomic_eq_atomic` below (without interference = the co-simulated atomic model); (2) the
+  non-atomic mutators are CO-SIMULATED UNDER INTERFERENCE: op `parInterleave` (harness ops_interleave.go, driver
+  `hParInterleave` in Driver/Parallel.lean) runs the real mutators nested-interleaved on one Population, records the trace
+  of registry operations and every thread's random values, and steps `pstep` along that trace - same operation and value
+  at every step, same genomes / flags / errors / registry at the end.
     `nonatomic_eq_atomic`, `goroutine_eq_sequential`
                               run back to back on one registry, the non-atomic mutators / the species goroutine ARE the
                               atomic model functions of Model/Mutate.lean / Model/Epoch.lean (co-simulated bit-exactly)
